@@ -4,6 +4,7 @@ package main
 
 import (
 	"fmt"
+	"os"
 	"regexp"
 	"go/constant"
 	"go/types"
@@ -316,6 +317,9 @@ func (c *ExprCtx) ident(name string) TV {
 		// a name that is not in scope at this program point (e.g. at an early return): an
 		// unconstrained value, so the obligation can only hold if it is vacuous there
 		return TV{V: e.s.Const("outofscope:"+name, SInt)}
+	}
+	if os.Getenv("GOWP_DEBUG") != "" && c.block != nil {
+		fmt.Fprintf(os.Stderr, "unresolved %q at block %d idx %d of %s\n", name, c.block.Index, c.idx, c.block.Parent())
 	}
 	c.fail("unresolved identifier %q in contract", name)
 	return TV{}
@@ -1036,15 +1040,11 @@ func (c *ExprCtx) retOf(args []CExpr) TV {
 			k = int(v.Int64())
 		}
 	}
-	vs := e.retVals[lastName(name)]
-	if k >= len(vs) {
-		if e.pass == 1 {
-			// call not yet seen in the discovery pass
-			return TV{V: IntLit(0), Typ: types.Typ[types.UntypedNil]}
-		}
-		c.fail("ret(%s,%d): no such call encountered before this point", name, k)
+	tv, ok := e.retValue(lastName(name), k)
+	if !ok {
+		c.fail("ret(%s,%d): the function has no such call (calls are counted in source order)", name, k)
 	}
-	return vs[k]
+	return tv
 }
 
 func lastName(s string) string {
